@@ -21,6 +21,14 @@ ReachFrom(links, ok, S, n) ==
   LET S2 == S \cup UNION {{d \in Partners(links, c) : ok[d]} : c \in S} IN
   IF n = 0 \/ S2 = S THEN S ELSE ReachFrom(links, ok, S2, n - 1)
 
+\* the link table: sync_trait(s, t, mutual) adds s -> t (and t -> s); with remove it deletes them; a directed link that
+\* already exists is left alone (no second push), which makes "mutual over an existing one-way link" add the reverse half
+LinkAdd(links, s, t, mutual) == links \cup {<<s, t>>} \cup (IF mutual THEN {<<t, s>>} ELSE {})
+LinkRemove(links, s, t, mutual) == links \ ({<<s, t>>} \cup (IF mutual THEN {<<t, s>>} ELSE {}))
+\* the push a sync_trait call performs: the source's value goes to the new partner of the first NEW directed link
+Push(links, s, t, mutual) == IF <<s, t>> \notin links THEN <<s, t>>
+                             ELSE IF mutual /\ <<t, s>> \notin links THEN <<t, s>> ELSE <<>>
+
 \* operational: st = [vals, locks (set of cells), calls (cell -> number of handler runs), depth]
 RECURSIVE Propagate(_, _, _, _, _)
 SetCell(links, acc, st, c, v) ==        \* setattr(c.object, c.attr, v) as performed by a partner's handler or the user
